@@ -82,7 +82,10 @@ class Interp:
         self._stack = []
 
     # ------------------------------------------------------------------ functions
-    def run(self, fi, args=None, kwargs=None, depth=0):
+    _callee_state = None
+    effects = ()
+
+    def run(self, fi, args=None, kwargs=None, depth=0, state=None):
         """abstract value returned by `fi` for the given argument values (list aligned with the parameters, `self` excluded)"""
         params = [p for p in fi.params if p not in ("self", "cls")]
         env = {}
@@ -95,7 +98,18 @@ class Interp:
         env["@fi"] = fi
         env["@depth"] = depth
         rets = []
-        self._block(fi.node.body, env, rets)
+        top = depth == 0
+        if top:
+            self.effects = []
+            self.exits = []                   # (returned value, {"self.<attr>": value written}) for every return of the top function
+        env["@top"] = top
+        if (state or {}):
+            env.update({"self." + k: v for k, v in state.items()})
+        done = self._block(fi.node.body, env, rets)
+        if top and not done:
+            self.exits.append((None, {k: v for k, v in env.items() if k.startswith("self.")}))
+        if depth > 0 and self._callee_state is not None:
+            self._callee_state.update({k: v for k, v in env.items() if k.startswith("self.")})
         if not rets:
             return self.d.unknown()
         out = rets[0]
@@ -114,7 +128,10 @@ class Interp:
         """returns True when every path through the block returned"""
         for st in body:
             if isinstance(st, ast.Return):
-                rets.append(self.ev(st.value, env) if st.value is not None else self.d.unknown())
+                v = self.ev(st.value, env) if st.value is not None else self.d.unknown()
+                rets.append(v)
+                if env.get("@top"):
+                    self.exits.append((v, {k: x for k, x in env.items() if k.startswith("self.")}))
                 return True
             if isinstance(st, ast.Assign):
                 v = self.ev(st.value, env)
@@ -161,7 +178,9 @@ class Interp:
                     if isinstance(n, ast.Return):
                         rets.append(self.d.unknown())
             elif isinstance(st, ast.Expr):
-                self.ev(st.value, env)
+                v = self.ev(st.value, env)
+                if isinstance(st.value, ast.Call):
+                    self.effects.append(v)            # calls made for their effect, in execution order (callees included)
             # assert / pass / raise / nested defs: no effect on values
             elif isinstance(st, ast.Raise):
                 return True
@@ -170,6 +189,8 @@ class Interp:
     def _bind(self, t, v, env, st):
         if isinstance(t, ast.Name):
             env[t.id] = v
+        elif isinstance(t, ast.Attribute) and isinstance(t.value, ast.Name) and t.value.id == "self":
+            env["self." + t.attr] = v
         elif isinstance(t, (ast.Tuple, ast.List)):
             for i, e in enumerate(t.elts):
                 if isinstance(v, Seq) and len(v) == len(t.elts):
@@ -215,9 +236,16 @@ class Interp:
             idx = const_value(e.slice)
             if isinstance(recv, Seq) and isinstance(idx, int) and -len(recv) <= idx < len(recv):
                 return recv[idx]
-            return d.subscript(recv, idx if idx is not None else self.ev(e.slice, env) if not isinstance(e.slice, ast.Slice) else None, e)
+            if idx is None and isinstance(e.slice, ast.Slice):
+                sl = e.slice
+                idx = ("slice",) + tuple(self.ev(x, env) if x is not None else None for x in (sl.lower, sl.upper, sl.step))
+            elif idx is None:
+                idx = self.ev(e.slice, env)
+            return d.subscript(recv, idx, e)
         if isinstance(e, ast.Attribute):
             if isinstance(e.value, ast.Name) and e.value.id == "self":
+                if "self." + e.attr in env:
+                    return env["self." + e.attr]
                 return d.self_attr(e.attr, e)
             recv = self.ev(e.value, env)
             if e.attr == "T" and isinstance(recv, Seq):
@@ -293,9 +321,17 @@ class Interp:
                 if self.follow is None and callee.module.name != fi.module.name:
                     continue
                 self._stack.append(callee.key)
+                own = isinstance(e.func, ast.Attribute) and isinstance(e.func.value, ast.Name) and e.func.value.id == "self"
+                saved = self._callee_state
+                self._callee_state = {} if own else None
                 try:
-                    return self.run(callee, args, kwargs, depth + 1)
+                    st_in = {k[5:]: v for k, v in env.items() if k.startswith("self.")} if own else None
+                    r = self.run(callee, args, kwargs, depth + 1, state=st_in)
+                    if own:
+                        env.update(self._callee_state)
+                    return r
                 finally:
+                    self._callee_state = saved
                     self._stack.pop()
         root = e.func
         while isinstance(root, ast.Attribute):
